@@ -7,6 +7,22 @@ BASE_NOTE = ("Trusted: Lean 4.33.0 kernel (axioms propext, Classical.choice, Quo
              "tied to /repo's working tree by running both on the same inputs on every run.")
 
 CHECKS = {
+    "C06": {
+        "category": "proof",
+        "text": "Lean theorems about Model/Queue.lean, a transition system of MemoryBoundedQueue at critical-section "
+                "granularity (mutex, two condvars with arbitrary notify_one choice and spurious wake-ups), proved as "
+                "invariants over all event sequences, i.e. all interleavings of any number of threads running arbitrary "
+                "programs over push/try_push/pull/try_pull/close: conservation / exactly-once / nothing foreign, every take "
+                "maximal, current_size = sum of sizes <= capacity, no admit after close, end-of-stream only when closed and "
+                "empty, no waiter after close and every unfinished call completes in <= 2 own steps, no lost wake-up on "
+                "not_empty (any number of consumers) and on not_full (one producer; weaker covered-ness for several, with a "
+                "proved counterexample to the strong form). The model is tied to the code by replaying the under-lock event "
+                "log (hook H2) of real runs with 3..16 threads, seeded programs and seeded schedule perturbation through the "
+                "model (every event enabled, every snapshot equal), and the property is checked directly on the same logs and "
+                "on the callers' results, with a watchdog for hangs.",
+        "design_ref": "DESIGN.md §5 C06, §6 H2",
+        "technique": "Lean 4 invariant proofs over a transition system + trace-replay correspondence on real concurrent runs",
+    },
     "C20": {
         "category": "proof",
         "text": "Lean theorems about Model/Kmer.lean (UInt64 shifts/masks exactly as kmer.rs) for all k in 1..32 and all "
